@@ -8,6 +8,7 @@ import random
 from . import common  # noqa: F401  (binds the implementation under test)
 from .common import arch
 from .spaces import (
+    unrelated,
     KINDS,
     SHAPES,
     admissible_pairs,
@@ -156,10 +157,34 @@ def build(ns, I, seed: int = 0, level_limit=None):
 # -------------------------------------------------------------------- rule spaces
 
 
-def rule_specs(ns, max_s=3, max_o=3, antichain=True, exclude=None, aliases=True, kinds=KINDS):
-    """All rule specs of R(G) over the module names ns (root excluded by default)."""
+def overlap_choices(ns, exclude=()):
+    """(subjects, objects) over pairwise unrelated modules where at least one module is listed on
+    both sides of the rule (e.g. [api, core] ... except [core, util])."""
+    cand = [x for x in ns if x not in exclude]
+    out = []
+    for k in (1, 2, 3):
+        for xs in itertools.combinations(cand, k):
+            if not unrelated(xs):
+                continue
+            subsets = [c for j in range(1, k + 1) for c in itertools.combinations(xs, j)]
+            for subj in subsets:
+                for obj in subsets:
+                    if set(subj) & set(obj) and set(subj) | set(obj) == set(xs):
+                        out.append((subj, obj))
+    return out
+
+
+def rule_specs(ns, max_s=3, max_o=3, antichain=True, exclude=None, aliases=True, kinds=KINDS, overlap=False):
+    """All rule specs of R(G) over the module names ns (root excluded by default).
+    overlap=True adds the rules in which a module is both subject and object (same filter kind on
+    both sides)."""
     exclude = (ns[0],) if exclude is None else exclude
     out = []
+    if overlap:
+        for subj, obj in overlap_choices(ns, exclude):
+            for kind in kinds:
+                for verb, imp, exc in SHAPES:
+                    out.append(dict(verb=verb, imp=imp, exc=exc, sk=kind, subj=subj, ok=kind, obj=obj))
     for subj, obj in subject_object_choices(ns, max_s, max_o, antichain, exclude):
         for sk in kinds:
             for ok in kinds:
